@@ -43,6 +43,12 @@ class RiscvAssembler(BaseAssembler):
         self.lit_pool = []
         self.lit_counter = 0
 
+    def begin_object(self):
+        # Number the literals per object file, such that the labels do
+        # not depend on what was assembled before:
+        self.lit_pool = []
+        self.lit_counter = 0
+
     def flush(self):
         if self.in_macro:
             raise Exception()
